@@ -311,51 +311,10 @@ func (p *Parser) parseOuterTemplate() ([]Node, error) {
 
 // Parse an expression
 func (p *Parser) parseExpression() (Node, error) {
-	// Parse the primary expression first
-	expr, err := p.parseSimpleExpression()
+	// Parse the first operand together with its [index] and |filter suffixes
+	expr, err := p.parseOperand()
 	if err != nil {
 		return nil, err
-	}
-
-	// Check for array access with square brackets
-	for p.tokenIndex < len(p.tokens) &&
-		p.tokens[p.tokenIndex].Type == TOKEN_PUNCTUATION &&
-		p.tokens[p.tokenIndex].Value == "[" {
-
-		// Get the line number for error reporting
-		line := p.tokens[p.tokenIndex].Line
-
-		// Skip the opening bracket
-		p.tokenIndex++
-
-		// Parse the index expression
-		indexExpr, err := p.parseExpression()
-		if err != nil {
-			return nil, err
-		}
-
-		// Expect closing bracket
-		if p.tokenIndex >= len(p.tokens) ||
-			p.tokens[p.tokenIndex].Type != TOKEN_PUNCTUATION ||
-			p.tokens[p.tokenIndex].Value != "]" {
-			return nil, fmt.Errorf("expected closing bracket after array index at line %d", line)
-		}
-		p.tokenIndex++ // Skip closing bracket
-
-		// Create a GetItemNode
-		expr = NewGetItemNode(expr, indexExpr, line)
-	}
-
-	// Now check for filter operator (|)
-	// Process all filters in a loop to handle consecutive filters properly
-	for p.tokenIndex < len(p.tokens) &&
-		p.tokens[p.tokenIndex].Type == TOKEN_PUNCTUATION &&
-		p.tokens[p.tokenIndex].Value == "|" {
-
-		expr, err = p.parseFilters(expr)
-		if err != nil {
-			return nil, err
-		}
 	}
 
 	// Check for binary operators (and, or, ==, !=, <, >, etc.)
@@ -384,6 +343,55 @@ func (p *Parser) parseExpression() (Node, error) {
 		p.tokens[p.tokenIndex].Value == "?" {
 
 		return p.parseConditionalExpression(expr)
+	}
+
+	return expr, nil
+}
+
+// parseOperand parses a simple expression followed by any number of [index]
+// and |filter suffixes, so that a suffix binds to the operand it follows
+// wherever that operand stands in a larger expression
+func (p *Parser) parseOperand() (Node, error) {
+	expr, err := p.parseSimpleExpression()
+	if err != nil {
+		return nil, err
+	}
+
+	for p.tokenIndex < len(p.tokens) && p.tokens[p.tokenIndex].Type == TOKEN_PUNCTUATION {
+		switch p.tokens[p.tokenIndex].Value {
+		case "[":
+			// Get the line number for error reporting
+			line := p.tokens[p.tokenIndex].Line
+
+			// Skip the opening bracket
+			p.tokenIndex++
+
+			// Parse the index expression
+			indexExpr, err := p.parseExpression()
+			if err != nil {
+				return nil, err
+			}
+
+			// Expect closing bracket
+			if p.tokenIndex >= len(p.tokens) ||
+				p.tokens[p.tokenIndex].Type != TOKEN_PUNCTUATION ||
+				p.tokens[p.tokenIndex].Value != "]" {
+				return nil, fmt.Errorf("expected closing bracket after array index at line %d", line)
+			}
+			p.tokenIndex++ // Skip closing bracket
+
+			// Create a GetItemNode
+			expr = NewGetItemNode(expr, indexExpr, line)
+
+		case "|":
+			expr, err = p.parseFilters(expr)
+			if err != nil {
+				return nil, err
+			}
+
+		default:
+			return expr, nil
+		}
 	}
 
 	return expr, nil
@@ -447,7 +455,7 @@ func (p *Parser) parseSimpleExpression() (Node, error) {
 		line := token.Line
 
 		// Parse the operand
-		operand, err := p.parseSimpleExpression()
+		operand, err := p.parseOperand()
 		if err != nil {
 			return nil, err
 		}
@@ -1064,7 +1072,7 @@ func (p *Parser) parseBinaryExpression(left Node) (Node, error) {
 	precedence := getOperatorPrecedence(operator)
 
 	// Parse the right side expression
-	right, err := p.parseSimpleExpression()
+	right, err := p.parseOperand()
 	if err != nil {
 		return nil, err
 	}
